@@ -22,12 +22,15 @@ rundemo; WO=$?
 echo "CONFIRM tests_pass=$T demo_with_change_rc=$W demo_without_rc=$WO"
 if [ "$T" != "20" ] || [ "$W" = "0" ] || [ "$WO" != "0" ]; then echo "NOT-CONFIRMED"; fi
 cd /verif
+# The checks are pointed at the scratch worktree (with the change applied) through QSX_REPO / QSX_CACHE instead
+# of applying the patch to /repo itself: builder agents and background runs build from /repo concurrently and
+# must never see a seeded change.  Same code path otherwise (tools/build_repo.sh honours QSX_REPO).
 EVB=$(mktemp -d /var/tmp/qsx_evb.XXXXXX); cp -a evidence/. "$EVB"/     # evidence written under a mutation must not survive
-git -C /repo apply "$S/patch.diff" || { echo "PATCH-DOES-NOT-APPLY-TO-REPO"; exit 2; }
+( cd "$WT" && git checkout -q -- . && git apply "$S/patch.diff" ) || { echo "PATCH-DOES-NOT-APPLY"; exit 2; }
+export QSX_REPO="$WT" QSX_CACHE=/var/tmp/qsx-cache-seed
 for c in "$@"; do
-  out=$(./check $c quick 2>&1); rc=$?
+  out=$(timeout 1500 ./check $c quick 2>&1); rc=$?
   echo "CHECK $c rc=$rc  $(echo "$out" | grep -c '^VIOLATION') violation lines; first: $(echo "$out" | grep '^# ' | head -1 | cut -c1-220)"
 done
-git -C /repo checkout -q -- .
-cp -a "$EVB"/. evidence/; rm -rf "$EVB"
-git -C /repo status --short | grep -v '^??'
+( cd "$WT" && git checkout -q -- . )
+cp -a "$EVB"/. evidence/; rm -rf "$EVB"; rm -rf /var/tmp/qsx-cache-seed
